@@ -31,6 +31,9 @@ func main() {
 		case "C01", "C02", "C03", "C09", "C10", "C14", "C18":
 			m.Rule = "one case = one NewSlimTrie input (key list, encoded values, option pointers); distinct_nontrivial = distinct cases (SHA-1 of the input) with at least two keys, i.e. at least one inner node"
 			genLookup(t, m, *prop, *tier, *seed)
+		case "C08":
+			m.Rule = "one case = one NewSlimTrie call (key SEQUENCE, values, options) followed, if a trie is returned for an ascending list, by lookups of all its keys; distinct_nontrivial = distinct inputs with at least two keys"
+			genBuild(t, m, *tier, *seed)
 		case "C19":
 			m.Rule = "one case = one trie rendered with String() fresh and after a marshal round trip; distinct_nontrivial = distinct tries with at least two keys; classes_reached lists the node kinds (257-bit, short<k>) the renderings contained"
 			genRender(t, m, *tier, *seed)
